@@ -676,6 +676,9 @@ func checkAddr(c Case, r *ev.Rec) error {
 		for _, p := range m.Options {
 			mm[string(p.K)] = string(p.V)
 		}
+		if len(mm) == 0 && m.Cost%2 == 0 {
+			mm = nil // "no options" as a nil map
+		}
 		n, err := router_address.NewRouterAddress(m.Cost, time.Unix(0, 0), string(m.Style), mm)
 		if err != nil {
 			return fmt.Errorf("NewRouterAddress rejected well-formed arguments: %v", err)
@@ -741,6 +744,9 @@ func checkRI(c Case, r *ev.Rec) error {
 			mm := map[string]string{}
 			for _, p := range a.Options {
 				mm[string(p.K)] = string(p.V)
+			}
+			if len(mm) == 0 && a.Cost%2 == 0 {
+				mm = nil
 			}
 			ra, err := router_address.NewRouterAddress(a.Cost, time.Unix(0, 0), string(a.Style), mm)
 			if err != nil {
